@@ -161,7 +161,13 @@ def plan_program(spec, plan_path):
                                       "env": list(sd.get("env", [])), "workdir": sd["workdir"],
                                       "need": sd.get("need", "default")}])
         elif kind == "static_extra":
-            prog.append(["static", list(item[1])])
+            body.append(["static", list(item[1])])
+        elif kind == "glob_only":
+            body.append(["glob", item[1], {}])
+        elif kind == "step_raw":
+            body.append(["step", dict(item[1])])
+        elif kind == "pause":
+            body.append(["sleep", 1])
     if plan_path == "plan.py":
         # Every source has exactly one declaration: the root plan declares all sources that any
         # active step uses (initially, dynamically or through a glob).
@@ -174,6 +180,26 @@ def plan_program(spec, plan_path):
                     # every match must be justified: the whole directory is declared
                     d = os.path.dirname(item[1])
                     needed.extend(p for p in spec["sources"] if os.path.dirname(p) == d)
+    late = spec.get("static_late") if plan_path == "plan.py" else None
+    if late is not None:
+        # Schedule-sensitive variant (C02): only the plan scripts are declared up front; all
+        # other sources are declared at the end of the root plan, after `late` idle turns, so
+        # that steps of concurrently running sub-plans reference them before or after their
+        # declaration depending on the schedule.
+        early = [p for p in needed if p in spec["plans"]]
+        rest = [p for p in needed if p not in spec["plans"]]
+        decl = static_decl([p for p in early if p != "plan.py"], style)
+        if decl:
+            prog.append(["static", decl])
+        decl = static_decl(rest, style)
+        tail = [["sleep", 1]] * int(late)
+        if decl:
+            tail.append(["static", decl])
+        fail = [op for op in body if op[0] == "fail"]
+        if fail:
+            k = body.index(fail[0])
+            return prog + body[:k] + tail + body[k:]
+        return prog + body + tail
     decl = static_decl([p for p in needed if p != "plan.py"], style)
     if decl:
         prog.append(["static", decl])
